@@ -194,6 +194,7 @@ type runOpts struct {
 	property   string
 	nonterm    bool
 	vectorFile string
+	pinned     bool
 }
 
 type session struct {
@@ -245,6 +246,7 @@ func cmdRun(args []string) int {
 	fs.StringVar(&o.params, "params", "", "harness parameters k=v,k=v (read by verifParam)")
 	fs.BoolVar(&o.nonterm, "nonterm", false, "treat exceeding the step budget as a non-termination violation")
 	fs.StringVar(&o.vectorFile, "vector", "", "concrete replay vector: run the harness with these inputs (selfcheck)")
+	fs.BoolVar(&o.pinned, "pinned", false, "with -vector: keep inputs symbolic, pinned to the vector by solver constraints")
 	worker := fs.Bool("worker", false, "worker mode: read JSON jobs from stdin, one per line")
 	fs.Parse(args)
 
@@ -338,6 +340,7 @@ func (s *session) run(o runOpts) int {
 	it.nonterminationIsViolation = o.nonterm
 	it.params = parseParams(o.params)
 	it.vector = nil
+	it.pinned = o.pinned
 	if o.vectorFile != "" {
 		if err := it.loadVector(o.vectorFile); err != nil {
 			fmt.Fprintln(os.Stderr, "vector:", err)
@@ -382,6 +385,8 @@ func (s *session) run(o runOpts) int {
 		it.mstate.universe = nil
 		it.curFrame = nil
 		it.vectorPos = 0
+		// merge decisions must be a function of the path alone (re-execution replays them)
+		it.noMerge = map[*ssa.If]bool{}
 		it.callSSA(nil, 0, hfn, nil, nil)
 		if len(it.mstate.observe) > 0 && len(ex.Observed) == 0 {
 			ex.Observed = append([]string{}, it.mstate.observe...)
